@@ -1,6 +1,7 @@
 # Standard library
 import os
 
+import astropy.units as u
 import numpy as np
 
 # Third-party
@@ -442,7 +443,20 @@ class TheJoker:
             mcmc_init = custom_func(mcmc_init, MAP_sample, model)
         mcmc_init = {k: np.squeeze(v) for k, v in mcmc_init.items()}
 
-        p = self.prior.pars
+        # The model below works in days, radians and the RV unit of the data:
+        # express every parameter in those units (the priors may be declared
+        # in any equivalent units)
+        rv_unit = data.rv.unit
+        p = dict(self.prior.pars)
+        for name in self.prior.par_names:
+            if name == "P":
+                p[name] = xu.to_unit(p[name], u.day)
+            elif name in ("omega", "M0"):
+                p[name] = xu.to_unit(p[name], u.radian)
+            elif name in ("s", "K") or name.startswith("dv0_"):
+                p[name] = xu.to_unit(p[name], rv_unit)
+            elif name.startswith("v"):
+                p[name] = xu.to_unit(p[name], rv_unit / u.day ** int(name[1:]))
 
         if "t_peri" not in model.named_vars:
             with model:
